@@ -9,6 +9,7 @@ use miette::{Diagnostic, LabeledSpan, NamedSource, SourceSpan};
 
 use crate::Error;
 use crate::Location;
+use crate::de_error::sanitize_rendered;
 use crate::de_snipped::sanitize_terminal_snippet_preserve_len;
 #[cfg(any(feature = "garde", feature = "validator"))]
 use crate::location::Locations;
@@ -204,7 +205,7 @@ fn build_diagnostic(
             );
 
             ErrorDiagnostic {
-                message: formatter.format_message(err).into_owned(),
+                message: sanitize_rendered(formatter.format_message(err).into_owned()),
                 src,
                 labels,
                 related: Vec::new(),
@@ -217,13 +218,15 @@ fn build_diagnostic(
                 && let Some(span) = to_source_span(&src, &loc)
             {
                 labels.push(LabeledSpan::new_with_span(
-                    Some(formatter.format_message(other).into_owned()),
+                    Some(sanitize_rendered(
+                        formatter.format_message(other).into_owned(),
+                    )),
                     span,
                 ));
             }
 
             ErrorDiagnostic {
-                message: formatter.format_message(other).into_owned(),
+                message: sanitize_rendered(formatter.format_message(other).into_owned()),
                 src,
                 labels,
                 related: Vec::new(),
@@ -264,7 +267,9 @@ fn build_validation_entry_diagnostic(
     let def_loc = locs.defined_location;
 
     let resolved_path = format_path_with_resolved_leaf(path_key, &resolved_leaf);
-    let base_msg = format!("validation error: {entry} for `{resolved_path}`");
+    let base_msg = sanitize_rendered(format!(
+        "validation error: {entry} for `{resolved_path}`"
+    ));
 
     let labels = build_validation_labels(src, ref_loc, def_loc);
 
